@@ -101,7 +101,7 @@ def run(ctx, res):
         text = x.decode("utf-8-sig", "replace") if isinstance(x, bytes) else x
         o1, log1, comps1 = T.impl_parse(x, multiple=True)
         row = {"kind": kind, "label": label, "x": text, "o1": o1}
-        nontriv = isinstance(o1, list) and o1 and o1[0] != "err" and any(c[1] for c in o1)
+        nontriv = isinstance(o1, list) and o1 and o1[0] != "err" and any(any(True for _ in values_of(c)) for c in o1)
         res.count((kind, text), nontrivial=bool(nontriv))
         reqs.append(T.parse_req(x, True, log1))
         row["nreq"] = 1
@@ -123,6 +123,12 @@ def run(ctx, res):
                 row["o2"] = o2
                 reqs.append(T.parse_req(s1, True, log2))
                 row["nreq"] += 1
+                # the guards of theorem C01_stable and its prediction (normal form), under the decoder oracle of s1
+                orc = T.build_oracle(s1)
+                for c_obs in o1:
+                    reqs.append(("tree_guards", [c_obs, 1, orc]))
+                row["nreq"] += len(o1)
+                row["has_guards"] = True
                 if comps2 is not None:
                     sers2 = [T.impl_ser(c) for c in comps2]
                     row["s2"] = "".join(s for s in sers2 if isinstance(s, str)) if all(isinstance(s, str) for s in sers2) else sers2
@@ -130,6 +136,7 @@ def run(ctx, res):
     outs = M.batch(reqs) if M else None
     pos = 0
     n_stable = 0
+    n_in_guard = 0
     for row in rows:
         agree = True
         if outs is not None:
@@ -144,13 +151,27 @@ def run(ctx, res):
                         continue
                     agree &= res.corr("Component.to_ical", c_obs, s, m)
                 if "s1" in row:
-                    agree &= res.corr("Component.from_ical (re-parse of own output)", row["s1"], row["o2"], mo[-1])
+                    k = 2 + len(row["o1"])
+                    agree &= res.corr("Component.from_ical (re-parse of own output)", row["s1"], row["o2"], mo[k])
+                    row["guards"] = mo[k + 1:k + 1 + len(row["o1"])]
         # ---- the property on the implementation
         if "s1" not in row:
             continue
         o1n = [strip_errs(c) for c in row["o1"]]
         o2 = row["o2"]
         stable = isinstance(o2, list) and o2[:1] != ["err"] and [strip_errs(c) for c in o2] == o1n and row.get("s2") == row["s1"]
+        g = row.get("guards")
+        in_guard = bool(g) and all(isinstance(x, list) and len(x) == 3 and x[0] == 1 and x[1] == 1 for x in g)
+        if in_guard:
+            # inside the guards of theorem C01_stable: the implementation must be stable AND its second parse must be
+            # exactly the normal form the theorem predicts
+            n_in_guard += 1
+            pred = [x[2] for x in g]
+            if not stable or o2 != pred:
+                res.fail("C01 inside the theorem's guards: second parse is not the predicted normal form / not stable",
+                         {"kind": row["kind"], "label": row["label"], "x": row["x"][:2000]},
+                         observed=_brief(o2), expected=_brief(pred))
+                continue
         if stable:
             n_stable += 1
             continue
@@ -164,6 +185,7 @@ def run(ctx, res):
                      {"kind": row["kind"], "label": row["label"], "x": row["x"][:2000]},
                      observed={"second_parse": _brief(o2), "s2_equal": row.get("s2") == row["s1"]}, expected=_brief(o1n))
     res.extra["stable_cases"] = n_stable
+    res.extra["cases_inside_theorem_guards"] = n_in_guard
     # ---- first-parse clause on generated well-formed calendars: names, parameters and TEXT values as written
     rng = common.rng_for(ctx.seed, "c01-first")
     nfirst = 0
